@@ -128,21 +128,42 @@ type Sel struct {
 func (c *Ctx) sites(f *ir.Func, callee string) []ssa.CallInstruction {
 	var out []ssa.CallInstruction
 	for _, alt := range splitTop(callee) {
-		name, sel := alt, ""
+		name := alt
+		var sels []string
 		if i := strings.Index(alt, "["); i > 0 && strings.HasSuffix(alt, "]") {
-			name, sel = alt[:i], alt[i+1:len(alt)-1]
+			name = alt[:i]
+			// one or more selectors: [i=pattern][j=pattern]
+			rest := alt[i:]
+			depth, st := 0, 0
+			for k := 0; k < len(rest); k++ {
+				switch rest[k] {
+				case '[':
+					if depth == 0 {
+						st = k + 1
+					}
+					depth++
+				case ']':
+					depth--
+					if depth == 0 {
+						sels = append(sels, rest[st:k])
+					}
+				}
+			}
 		}
 		for _, call := range f.CallsTo(name) {
-			if sel != "" {
+			ok := true
+			for _, sel := range sels {
 				k := strings.Index(sel, "=")
 				idx := 0
 				fmt.Sscanf(sel[:k], "%d", &idx)
 				args := f.CallArgs(call)
 				if idx >= len(args) || !ir.MatchAny(sel[k+1:], args[idx]) {
-					continue
+					ok = false
 				}
 			}
-			out = append(out, call)
+			if ok {
+				out = append(out, call)
+			}
 		}
 	}
 	c.R.CallSites += len(out)
@@ -810,4 +831,60 @@ func (c *Ctx) ConstValue(pkgRel, name, want string) {
 	}
 	got := obj.Val().ExactString()
 	c.add("C", subject, "const", "constant has the documented value "+want, map[bool]report.Status{true: report.OK, false: report.Violated}[got == want], got, c.P.Rel(obj.Pos()))
+}
+
+// SendersFrom: in package pkgRel, every call to callee whose argument idx mentions one of the given account getters
+// (a pool-owned account as the source of funds) occurs in one of the allowed functions.
+func (c *Ctx) SendersFrom(pkgRel, callee string, idx int, getters []string, allowed []string, desc string) {
+	sp := c.P.SSAPkg(pkgRel)
+	if sp == nil {
+		c.add("W", pkgRel, "sendersfrom/"+callee, desc, report.Undecided, "package not loaded", "")
+		return
+	}
+	allow := map[string]bool{}
+	for _, a := range allowed {
+		allow[a] = true
+	}
+	n := 0
+	var found []string
+	for _, fn := range c.P.AllFuncs() {
+		if fn.Pkg != sp || !load.IsSubjectFile(c.P.File(fn.Pos())) {
+			continue
+		}
+		f := c.Wrap(fn)
+		for _, call := range f.CallsTo(callee) {
+			args := f.CallArgs(call)
+			if idx >= len(args) {
+				continue
+			}
+			hit := false
+			args[idx].Walk(func(t *ir.Term) bool {
+				if t.Op == "call" {
+					for _, g := range getters {
+						if strings.HasSuffix(t.Name, "."+g) {
+							hit = true
+						}
+					}
+				}
+				return !hit
+			})
+			// a parameter named sender may be a pool account too (helpers): those helpers are in the allow-list by name
+			if !hit {
+				continue
+			}
+			n++
+			root := ir.FuncName(rootFn(fn))
+			found = append(found, root)
+			if !allow[root] {
+				c.add("W", pkgRel, "sendersfrom/"+callee, desc, report.Violated, "funds are sent from a pool-owned account in "+root, c.posOf(call))
+				return
+			}
+		}
+	}
+	if n == 0 {
+		c.add("W", pkgRel, "sendersfrom/"+callee, desc, report.Violated, "no send from a pool-owned account found (rule matches nothing)", "")
+		return
+	}
+	sort.Strings(found)
+	c.add("W", pkgRel, "sendersfrom/"+callee, desc, report.OK, strings.Join(uniq(found), ", "), "")
 }
